@@ -31,6 +31,9 @@ func runC18(c *Ctx) {
 	ruleLenCountsContent(c, "R18.5")
 	rulePutAlwaysWrites(c, "R18.6")
 	ruleCursorReadsLikeGet(c, "R18.7")
+	ruleMemCursorMovesWithResult(c, "R18.8")
+	ruleBoltMemoryCopied(c, "R18.9", 12) // what a back-end hands out is the stored value, not a window on memory bolt reuses
+	ruleCopiesSizedBySource(c, "R18.10")
 }
 
 // R18.6: a successful Put has written the beacon it was given. In the bolt back-ends the transaction closure returns nil
@@ -648,4 +651,85 @@ func ruleCursorReadsLikeGet(c *Ctx, rule string) {
 		}
 	}
 	c.Floor(rule, "predecessor lookups in the trimmed store", n, 1)
+}
+
+// R18.8: the in-memory cursor is a position in the sorted slice. Each of First, Last, Seek and Next that hands out a
+// beacon has moved the position to that beacon: the beacon a following Next returns is its successor.
+func ruleMemCursorMovesWithResult(c *Ctx, rule string) {
+	c.ranRules[rule] = true
+	n := 0
+	for _, name := range []string{"First", "Last", "Seek", "Next"} {
+		fn := c.P.Fn("internal/chain/memdb.(*memDBCursor)." + name)
+		if !c.Anchor(rule, "internal/chain/memdb.(*memDBCursor)."+name, fn != nil) {
+			continue
+		}
+		posBlocks := map[*ssa.BasicBlock]bool{}
+		forEachInstr(fn, func(b *ssa.BasicBlock, _ int, in ssa.Instruction) {
+			if st, ok := in.(*ssa.Store); ok && fieldAddrIs(st.Addr, "internal/chain/memdb.memDBCursor", "pos") {
+				posBlocks[b] = true
+			}
+		})
+		for i, leaf := range returnLeaves(fn, 0) {
+			if isNilConst(leaf.v) {
+				continue
+			}
+			n++
+			at := leaf.at.Block()
+			ok := posBlocks[at] || !reachableAvoiding(fn, at, func(e edge) bool { return posBlocks[e.from] })
+			c.Ok(rule, fmt.Sprintf("memDBCursor.%s sets its position before handing out a beacon (return value #%d)", name, i+1), shortPos(c.P, leaf.at), ok,
+				"every path to a return with a beacon passes a store to memDBCursor.pos")
+		}
+	}
+	c.Floor(rule, "beacon-returning exits of the in-memory cursor", n, 4)
+}
+
+// R18.10: where the chain stores rebuild a beacon field by allocate-and-copy, the buffer is sized by the bytes being
+// copied: make([]byte, len(src)) followed by copy(dst, src). A buffer sized by some other value truncates or pads.
+// A make([]byte, len(x)) is paired with the first copy that follows it in the same block.
+func ruleCopiesSizedBySource(c *Ctx, rule string) {
+	c.ranRules[rule] = true
+	n := 0
+	for _, root := range c.P.SubjectFns() {
+		if isControlFn(root) || root.Parent() != nil || !strings.HasPrefix(fnPkgPath(root), modPath+"/internal/chain/") {
+			continue
+		}
+		for _, fn := range withClosures(root) {
+			for _, b := range fn.Blocks {
+				for i, in := range b.Instrs {
+					mk, ok := in.(*ssa.MakeSlice)
+					if !ok || !isByteSlice(mk.Type()) {
+						continue
+					}
+					lc, ok := stripConv(mk.Len).(*ssa.Call)
+					if !ok {
+						continue
+					}
+					if lb, ok := lc.Call.Value.(*ssa.Builtin); !ok || lb.Name() != "len" {
+						continue
+					}
+					var cp *ssa.Call
+					for _, x := range b.Instrs[i+1:] {
+						if _, again := x.(*ssa.MakeSlice); again {
+							break
+						}
+						if call, ok := x.(*ssa.Call); ok {
+							if bb, ok := call.Call.Value.(*ssa.Builtin); ok && bb.Name() == "copy" {
+								cp = call
+								break
+							}
+						}
+					}
+					if cp == nil {
+						continue
+					}
+					n++
+					src := cp.Call.Args[1]
+					same := canonValue(lc.Call.Args[0]) == canonValue(src) || pathOf(lc.Call.Args[0]) == pathOf(src)
+					c.Ok(rule, fnShort(fn)+" sizes the copy of "+trimTemps(pathOf(src))+" by its source", shortPos(c.P, cp), same,
+						"buffer length is len("+trimTemps(pathOf(lc.Call.Args[0]))+"), bytes copied come from "+trimTemps(pathOf(src)))
+				}
+			}
+		}
+	}
+	c.Floor(rule, "allocate-and-copy sites in the chain stores", n, 2)
 }
